@@ -375,15 +375,101 @@ fn negative_variants(rep: &mut Report, rng: &mut Rng, a2: &Module, texts: &[(Str
     }
 }
 
+/// Several consumers of the same value names from *different* sources in one resolver: each must get the values of the
+/// module it imports from (or its own), in every load order; a module that neither defines nor imports the name must fail.
+pub fn check_two_consumers(rep: &mut Report, idx: u64, rng: &mut Rng) {
+    rep.eval();
+    let (ka, kb, kc) = (rng.range(10, 4000) as i64, rng.range(4001, 9000) as i64, rng.range(9001, 20000) as i64);
+    let (na, nb) = (rng.range(2, 40) as i64, rng.range(41, 90) as i64);
+    let with_oid = rng.bool();
+    let oid = |k: u64| if with_oid { format!(" {{ iso standard(0) {} m({}) }}", 3000 + idx % 50, k) } else { String::new() };
+    let src = |name: &str, k: i64, n: i64, o: &str| format!("{}{} DEFINITIONS AUTOMATIC TAGS ::= BEGIN\nmax-k INTEGER ::= {}\nlen-n INTEGER ::= {}\nEND\n", name, o, k, n);
+    let body = |k: &str, n: &str| format!("T ::= INTEGER (0..{})\nS ::= OCTET STRING (SIZE (1..{}))\nD ::= SEQUENCE {{ d INTEGER (0..100000) DEFAULT {}, l SEQUENCE (SIZE (0..{})) OF BOOLEAN }}\n", k, n, k, n);
+    let user = |name: &str, from: &str, o: &str| format!("{} DEFINITIONS AUTOMATIC TAGS ::= BEGIN\nIMPORTS max-k, len-n FROM {}{};\n{}END\n", name, from, o, body("max-k", "len-n"));
+    let literal = |name: &str, k: i64, n: i64| format!("{} DEFINITIONS AUTOMATIC TAGS ::= BEGIN\n{}END\n", name, body(&k.to_string(), &n.to_string()));
+    let local = format!("Local-C DEFINITIONS AUTOMATIC TAGS ::= BEGIN\nIMPORTS len-n FROM Src-A{};\nmax-k INTEGER ::= {}\n{}END\n", oid(1), kc, body("max-k", "len-n"));
+    let stray = format!("Stray DEFINITIONS AUTOMATIC TAGS ::= BEGIN\nIMPORTS len-n FROM Src-B{};\nT ::= INTEGER (0..max-k)\nEND\n", oid(2));
+    let texts: Vec<(String, String)> = vec![
+        ("Src-A".into(), src("Src-A", ka, na, &oid(1))),
+        ("Src-B".into(), src("Src-B", kb, nb, &oid(2))),
+        ("User-A".into(), user("User-A", "Src-A", &oid(1))),
+        ("User-B".into(), user("User-B", "Src-B", &oid(2))),
+        ("Local-C".into(), local),
+    ];
+    let expected: Vec<(String, String)> = vec![("User-A".into(), literal("User-A", ka, na)), ("User-B".into(), literal("User-B", kb, nb)), ("Local-C".into(), literal("Local-C", kc, na))];
+    let mut want = std::collections::BTreeMap::new();
+    for (name, t) in &expected {
+        match resolve_all(&[t.clone()]) {
+            Ok(Ok(ms)) if ms.len() == 1 => {
+                want.insert(name.clone(), format!("{:?}", ms[0].definitions));
+            }
+            other => {
+                rep.inconclusive(&format!("C12 two-consumers: literal variant of {} does not resolve: {:?}", name, other.map(|r| r.map(|_| ()).map_err(|e| format!("{:?}", e)))));
+                return;
+            }
+        }
+    }
+    // a sample of load orders: all rotations and some shuffles
+    let mut orders: Vec<Vec<usize>> = Vec::new();
+    for r in 0..texts.len() {
+        orders.push((0..texts.len()).map(|i| (i + r) % texts.len()).collect());
+        orders.push((0..texts.len()).rev().map(|i| (i + r) % texts.len()).collect());
+    }
+    for _ in 0..10 {
+        let mut o: Vec<usize> = (0..texts.len()).collect();
+        rng.shuffle(&mut o);
+        orders.push(o);
+    }
+    for order in &orders {
+        let set: Vec<String> = order.iter().map(|i| texts[*i].1.clone()).collect();
+        let names: Vec<&str> = order.iter().map(|i| texts[*i].0.as_str()).collect();
+        let wit = || json!({"load_order": names, "modules": set});
+        match resolve_all(&set) {
+            Err(p) => rep.violation(&format!("c12:two-consumers:{}", p), wit()),
+            Ok(Err(e)) => rep.violation(&format!("c12:two-consumers:valid-set-rejected:{}", format!("{:?}", e).split('(').next().unwrap_or("")), wit()),
+            Ok(Ok(ms)) => {
+                for m in &ms {
+                    if let Some(w) = want.get(&m.name) {
+                        let got = format!("{:?}", m.definitions);
+                        if &got != w {
+                            rep.violation(
+                                &format!("c12:two-consumers:{}:gets-the-values-of-another-source", m.name),
+                                json!({"load_order": names, "modules": set, "module": m.name, "resolved": got.chars().take(600).collect::<String>(), "expected": w.chars().take(600).collect::<String>()}),
+                            );
+                        }
+                    }
+                }
+                rep.distinct(hash_str(&set.join("|")));
+            }
+        }
+        // with the stray module at a random position the whole set must be rejected
+        let mut set2 = set.clone();
+        let pos = rng.range(0, set2.len() as u64) as usize;
+        set2.insert(pos, stray.clone());
+        match resolve_all(&set2) {
+            Ok(Err(_)) => rep.hist("outcomes", "two-consumers:stray-rejected"),
+            Ok(Ok(_)) => rep.violation("c12:two-consumers:reference-neither-defined-nor-imported-resolves", json!({"load_order": names, "stray_at": pos, "modules": set2})),
+            Err(p) => rep.violation(&format!("c12:two-consumers:{}", p), json!({"modules": set2})),
+        }
+    }
+    rep.hist("outcomes", "two-consumers:sets");
+}
+
 pub fn run(rep: &mut Report, tier: &str, seed: u64, shard: u64, nshards: u64) {
-    rep.rule = "random literal-only modules A; a random subset of range bounds, SIZE bounds and DEFAULT literals replaced by fresh value references defined in the same module (before/after use) or in a sibling module imported by name / name+matching OID / name+differing OID / name+OID while the sibling has none; decoy modules (unrelated OID, none, OID extending or prefixing the imported one) defining the same names; every load order (<= 24); MultiModuleResolver::try_resolve_all; definitions of A' must equal those of the literal variant; negative variants (definition/import dropped, sibling not loaded, bound pointing at a BOOLEAN/string) must give the documented resolve errors. distinct = distinct (module set, load order) resolved".into();
+    rep.rule = "random literal-only modules A; a random subset of range bounds, SIZE bounds and DEFAULT literals replaced by fresh value references defined in the same module (before/after use) or in a sibling module imported by name / name+matching OID / name+differing OID / name+OID while the sibling has none; decoy modules (unrelated OID, none, OID extending or prefixing the imported one) defining the same names; every load order (<= 24); MultiModuleResolver::try_resolve_all; definitions of A' must equal those of the literal variant; negative variants (definition/import dropped, sibling not loaded, bound pointing at a BOOLEAN/string) must give the documented resolve errors; every fourth case additionally a five-module set in which three consumers take the same value names from different sources (two imports from different modules, one local definition) in 20 load orders, plus a module that references a name it neither defines nor imports (must be rejected). distinct = distinct (module set, load order) resolved".into();
     let n = if tier == "quick" { 500 } else { 8000 } / nshards;
     let cfg = GenCfg { value_refs: false, max_depth: 3, ..GenCfg::front() };
     for i in 0..n.max(1) {
         let idx = shard * 1_000_000 + i;
         let mut rng = Rng::derive(seed, &["C12"], idx);
         check_one(rep, idx, &mut rng, &cfg, i == 0);
+        if i % 4 == 0 {
+            let mut rng2 = Rng::derive(seed, &["C12", "two-consumers"], idx);
+            check_two_consumers(rep, idx, &mut rng2);
+        }
     }
+    let c = rep.hist.get("outcomes").and_then(|h| h.get("two-consumers:sets")).copied().unwrap_or(0);
+    rep.floor.insert("two-consumers:sets".into(), c);
     for cell in ["by-name", "name+matching-oid", "name+differing-oid", "name+oid-sibling-has-none", "same-module-only"] {
         let c = rep.hist.get("import-forms").and_then(|h| h.get(cell)).copied().unwrap_or(0);
         rep.floor.insert(format!("import-form:{}", cell), c);
